@@ -13,7 +13,7 @@ EXPLANATION = (
     'differently otherwise); R10.d the bridge obtains one bincode configuration, with fixed-width integers, for both '
     'directions; R10.e every register_types registers Self, Self::Output and at least today\'s hand-registered types, and '
     'generated Export impls call register_types of every non-skipped operation. Does not decide agreement of schema and '
-    'bytes per value, nor the generated foreign code.')
+    'bytes per value, nor the generated foreign code. R10.f TypeGen obtains its registry through the checked Tracer::registry() and propagates its error.')
 
 WIRE_CRATES = ['crux_core', 'crux_http', 'crux_kv', 'crux_time', 'crux_platform']
 
